@@ -447,51 +447,58 @@ def run(ck):
              dict(auth='rsa', mode='tunnel', a_subnet='10.1.0.0/24', b_subnet='10.2.0.0/24'),
              dict(ike_a={'encr': ['aes128'], 'integ': ['sha256'], 'prf': ['sha512'], 'dh': ['14']}, child_a={'encr': ['aes128'], 'integ': ['sha1'], 'dh': ['19']}),
              dict(ike_a={'encr': ['aes256'], 'integ': ['sha1'], 'prf': ['sha256'], 'dh': ['20']}, ipsec_proto='ah', v6=True, mode='tunnel')]
-    n = 0
-    for ci, conf in enumerate(confs if thorough else confs[:2]):
-        for name in CATALOGUE:
-            for via in vias:
-                n += 1
-                if not ck.mine(n):
-                    continue
-                if not thorough and via != 'loop' and (n + ci) % 2:
-                    continue
-                built = build(name, base + n, conf)
-                if built is None:
-                    ck.count('catalogue.not_reached')
-                    continue
-                sc, ep, sa = built
-                if sa.peer_crypto is None:
-                    ck.count('catalogue.no_keys')
-                    continue
-                sc.sim.case['state'] = name
-                # make sure an authentic datagram is in flight towards the victim: the peer probes (DPD) when it can
-                me = str(sa.my_addr)
-                if not any(d.dst == me for d in sc.sim.net):
-                    sc.trigger('A' if ep.name == 'B' else 'B', 'dpd')
-                    if any(d.dst == me for d in sc.sim.net):
-                        ck.count('catalogue.peer_probe_in_flight')
-                inj = Injector(ck, name, sc, ep, sa, via)
-                inj.icv = {2: 12, 12: 16, 14: 32}[inj.keys[0]]
-                rng = ck.rng('forge', n)
-                ck.seen('states', name)
-                forge_all(ck, inj, rng, thorough)
-                ck.count('catalogue.entries')
-                if n % 17 == 0:
-                    ck.sample({'state': name, 'via': via, 'injections': inj.n, 'ike_sa': {k: v for k, v in S.snap_ike(sa).items() if k in ('state', 'my_msg_id', 'peer_msg_id', 'init')}})
-                # positive control: the authentic datagram in flight is accepted
-                infl = [i for i, d in enumerate(sc.sim.net) if d.dst == inj.my_addr]
-                if infl:
-                    before = full_snapshot(ep)
-                    sc.sim.clock.advance(0.001)
-                    sc.deliver(infl[0])
-                    if diff_snap(before, full_snapshot(ep)) or len(before) != len(full_snapshot(ep)):
-                        ck.count('control.authentic_accepted')
-                    else:
-                        ck.count('control.authentic_without_visible_effect')
+    def sweep(confs_, n, salt=0):
+        for ci, conf in enumerate(confs_):
+            for name in CATALOGUE:
+                for via in vias:
+                    n += 1
+                    if not ck.mine(n):
+                        continue
+                    if not thorough and via != 'loop' and (n + ci) % 2:
+                        continue
+                    built = build(name, base + n + salt, conf)
+                    if built is None:
+                        ck.count('catalogue.not_reached')
+                        continue
+                    sc, ep, sa = built
+                    if sa.peer_crypto is None:
+                        ck.count('catalogue.no_keys')
+                        continue
+                    sc.sim.case['state'] = name
+                    # make sure an authentic datagram is in flight towards the victim: the peer probes (DPD) when it can
+                    me = str(sa.my_addr)
+                    if not any(d.dst == me for d in sc.sim.net):
+                        sc.trigger('A' if ep.name == 'B' else 'B', 'dpd')
+                        if any(d.dst == me for d in sc.sim.net):
+                            ck.count('catalogue.peer_probe_in_flight')
+                    inj = Injector(ck, name, sc, ep, sa, via)
+                    inj.icv = {2: 12, 12: 16, 14: 32}[inj.keys[0]]
+                    rng = ck.rng('forge', n + salt)
+                    ck.seen('states', name)
+                    forge_all(ck, inj, rng, thorough)
+                    ck.count('catalogue.entries')
+                    if n % 17 == 0:
+                        ck.sample({'state': name, 'via': via, 'injections': inj.n, 'ike_sa': {k: v for k, v in S.snap_ike(sa).items() if k in ('state', 'my_msg_id', 'peer_msg_id', 'init')}})
+                    # positive control: the authentic datagram in flight is accepted
+                    infl = [i for i, d in enumerate(sc.sim.net) if d.dst == inj.my_addr]
+                    if infl:
+                        before = full_snapshot(ep)
+                        sc.sim.clock.advance(0.001)
+                        sc.deliver(infl[0])
+                        if diff_snap(before, full_snapshot(ep)) or len(before) != len(full_snapshot(ep)):
+                            ck.count('control.authentic_accepted')
+                        else:
+                            ck.count('control.authentic_without_visible_effect')
+        return n
+
+    sweep(confs if thorough else confs[:2], 0)
+    # the catalogue once more with EDGE-SHAPED SPIs / nonces / IVs at both ends (leading or trailing 0x00 / 0xff, a zero inside, top bits set, nonces of 16 / 255 octets)
+    S.special_pass(ck, 15030, lambda: sweep(confs[:1] if not thorough else confs[:3], 5, salt=150000))
+    ck.count('special_values.sweeps')
 
 
 def verdict(ck):
+    ck.floor('(octet count, shape) classes of edge-shaped urandom() results handed to the daemons in the special-values pass', len(ck.sets['special_values.shapes']), 12)
     c = ck.counters
     ck.floor('forgeries arriving on another local address than the IKE_SA\'s', c['inject.arriving_on_another_local_address'], 2000)
     ck.floor('forgeries colliding with an authentic datagram under a non-cryptographic digest', c['collision_forgeries'], 300)
